@@ -1,7 +1,7 @@
 (** C02 - Attach, move, detach and children assignment have exactly the
     specified effect.  Only statements; proofs are [exact <lemma>]. *)
 Require Import AT.Model.Base AT.Model.Heap AT.Model.Mutate AT.Spec.MutSpec.
-Require AT.Proofs.MutParent AT.Proofs.MutHistory AT.Proofs.MutDelRun AT.Proofs.MutSetRun.
+Require AT.Proofs.MutParent AT.Proofs.MutHistory AT.Proofs.MutDelRun AT.Proofs.MutSetRun AT.Proofs.FaultExt.
 Import AT.Proofs.MutParent.
 
 (** [n.parent = v] (v a node or None), hooks not raising, from any point of
@@ -105,6 +105,16 @@ Theorem C02_constructors : forall typed asrt fu p xs s,
            (log_set_parent h1 n p ++ match xs with [] => [] | _ => fst (log_set_children h2 n xs) end)).
 Proof. exact MutSetRun.construct_run. Qed.
 Print Assumptions C02_constructors.
+
+(** the run theorems above are stated for hooks that do not raise; they apply to
+    every fault oracle that does not fire during the call: a call consults its
+    oracle only from the current hook counter on, and an oracle that is quiet
+    from there on gives exactly the fault-free run (result, links, hook log) *)
+Theorem C02_quiet_oracle_is_fault_free : forall typed asrt faults fuel o s,
+  (forall i k n, cnt s <= i -> faults i k n = false) ->
+  run_op typed asrt faults fuel o s = run_op typed asrt no_faults fuel o s.
+Proof. exact AT.Proofs.FaultExt.quiet_oracle_is_fault_free. Qed.
+Print Assumptions C02_quiet_oracle_is_fault_free.
 
 Example C02_example :
   let h := attach_links (attach_links (attach_links (init 4) 1 0) 2 0) 3 1 in
